@@ -1,77 +1,12 @@
-import SaModel.Lemmas.C18BlameUnion
+import SaModel.Lemmas.C18BlameMap
 /-
-C18, blame against the specification: the mutual recursion over the serde value.
-
-`frag x`: the fragment of serde values covered so far — `Some` / newtype layers, `None`, unit, all scalars, bytes,
-sequences (into list / large list / fixed-size list builders, and refused by every other builder), struct records
-(`serialize_struct`), unit and newtype variants (into union builders, refused by the others), nested arbitrarily.
-NOT yet covered: tuples / tuple structs, maps, tuple and struct variants.
+C18, blame against the specification: the mutual recursion over the serde value — EVERY `SVal` constructor into every
+builder family (`push_bl`), with the element / field / entry loops (`pushElems_bl`, `pushCountElems_bl`,
+`pushTupleElems_bl`, `pushFields_bl`, `pushStructEntries_bl`, `pushMapEntries_bl`).  Raw key / value streams
+(`.mapRaw`) are outside `noRaw`, the hypothesis of the completeness theorems of C01 this proof rests on.
 -/
 namespace SaModel.Props.C18
 open SaModel SaModel.Build SaModel.Spec
-
-mutual
-def frag : SVal → Bool
-  | .some v => frag v
-  | .newtypeStruct _ v => frag v
-  | .seq xs => frags xs
-  | .record _ fs => fragf fs
-  | .newtypeVariant _ _ _ v => frag v
-  | .tuple _ | .tupleStruct _ _ | .map _ | .mapRaw _
-  | .tupleVariant _ _ _ _ | .structVariant _ _ _ _ => false
-  | .unitVariant _ _ _ | .none | .unit | .bool _ | .int _ _ | .f32 _ | .f64 _ | .char _ | .str _ | .bytes _ | .unitStruct _ => true
-def frags : SVals → Bool
-  | .nil => true
-  | .cons x r => frag x && frags r
-def fragf : SFields → Bool
-  | .nil => true
-  | .cons _ _ x r => frag x && fragf r
-end
-
-/-! ### a builder that is not the container the value addresses blames itself -/
-
-theorem Shape_fsl_form {b : B} {f : Field} {k : Int} {n : Bool} {md : Metadata}
-    (h : Shape b (.fixedSizeList f k) n md) : ∃ p fm m len v cur el, b = .fixedSizeList p fm m len v cur el := by
-  cases b with
-  | fixedSizeList p fm m len v cur el => exact ⟨_, _, _, _, _, _, _, rfl⟩
-  | bytes _ ty _ _ _ => cases ty <;> simp [Shape, bytesDT] at h
-  | bytesView _ ty _ _ _ => cases ty <;> simp [Shape, viewDT] at h
-  | list _ large _ _ _ _ => cases large <;> simp [Shape] at h
-  | _ => simp [Shape, kindOf] at h
-
-def isSeqCont : B → Bool
-  | .list _ _ _ _ _ _ | .fixedSizeList _ _ _ _ _ _ _ => true
-  | _ => false
-
-def isStruct : B → Bool
-  | .struct _ _ _ _ _ _ _ => true
-  | _ => false
-
-def isList : B → Bool
-  | .list _ _ _ _ _ _ => true
-  | _ => false
-
-theorem seq_self_mem {ext : Ext} {b : B} {path : String} {dt n md} {xs : SVals} (hsh : Shape b dt n md)
-    (hb : isSeqCont b = false) (hi : (interpDT ext dt n md (.seq xs)).isOk = false) :
-    path ∈ blameDT ext path dt n md (.seq xs) := by
-  cases dt
-  case list f =>
-    obtain ⟨_, _, _, _, _, _, rfl⟩ := Shape_list_form (.inl hsh); simp [isSeqCont] at hb
-  case largeList f =>
-    obtain ⟨_, _, _, _, _, _, rfl⟩ := Shape_list_form (.inr hsh); simp [isSeqCont] at hb
-  case fixedSizeList f k =>
-    obtain ⟨_, _, _, _, _, _, _, rfl⟩ := Shape_fsl_form hsh; simp [isSeqCont] at hb
-  all_goals simp [blameDT, hi]
-
-theorem record_self_mem {ext : Ext} {b : B} {path : String} {dt n md} {nm : String} {fs : SFields} (hsh : Shape b dt n md)
-    (hb : isStruct b = false) (hi : (interpDT ext dt n md (.record nm fs)).isOk = false) :
-    path ∈ blameDT ext path dt n md (.record nm fs) := by
-  have hi' : (interpDT ext dt n md (.record "" fs)).isOk = false := by
-    simpa only [interpDT] using hi
-  cases dt
-  case struct sfs =>
-    obtain ⟨_, _, _, _, _, _, _, rfl⟩ := Shape_struct_form hsh; simp [isStruct] at hb
-  all_goals simp [blameDT, hi']
 
 theorem bytes_self_mem {ext : Ext} {path : String} {dt n md} {bs : Bytes}
     (hi : (interpDT ext dt n md (.bytes bs)).isOk = false) : path ∈ blameDT ext path dt n md (.bytes bs) := by
@@ -79,10 +14,6 @@ theorem bytes_self_mem {ext : Ext} {path : String} {dt n md} {bs : Bytes}
   case list f => obtain ⟨a, b, c, d⟩ := f; simp [blameDT, hi]
   case largeList f => obtain ⟨a, b, c, d⟩ := f; simp [blameDT, hi]
   all_goals simp [blameDT, hi]
-
-def isUnion : B → Bool
-  | .union _ _ _ _ _ => true
-  | _ => false
 
 theorem unitVariant_self_mem {ext : Ext} {b : B} {path : String} {dt n md} {a : String} {i : Nat} {vn : String}
     (hsh : Shape b dt n md) (hb : isUnion b = false) (hi : (interpDT ext dt n md (.unitVariant a i vn)).isOk = false) :
@@ -99,6 +30,36 @@ theorem newtypeVariant_self_mem {ext : Ext} {b : B} {path : String} {dt n md} {a
   case union ufs mode =>
     obtain ⟨_, _, _, _, _, rfl⟩ := Shape_union_form hsh; simp [isUnion] at hb
   all_goals simp [blameDT, hi]
+
+theorem tupleVariant_self_mem {ext : Ext} {b : B} {path : String} {dt n md} {a : String} {i : Nat} {vn : String} {xs : SVals}
+    (hsh : Shape b dt n md) (hb : isUnion b = false) (hi : (interpDT ext dt n md (.tupleVariant a i vn xs)).isOk = false) :
+    path ∈ blameDT ext path dt n md (.tupleVariant a i vn xs) := by
+  cases dt
+  case union ufs mode =>
+    obtain ⟨_, _, _, _, _, rfl⟩ := Shape_union_form hsh; simp [isUnion] at hb
+  all_goals simp [blameDT, hi]
+
+theorem structVariant_self_mem {ext : Ext} {b : B} {path : String} {dt n md} {a : String} {i : Nat} {vn : String}
+    {fields : SFields} (hsh : Shape b dt n md) (hb : isUnion b = false)
+    (hi : (interpDT ext dt n md (.structVariant a i vn fields)).isOk = false) :
+    path ∈ blameDT ext path dt n md (.structVariant a i vn fields) := by
+  cases dt
+  case union ufs mode =>
+    obtain ⟨_, _, _, _, _, rfl⟩ := Shape_union_form hsh; simp [isUnion] at hb
+  all_goals simp [blameDT, hi]
+
+theorem nodup_not_mem_take {l : List String} {j : Nat} {a : String} (hnd : l.Nodup) (h : l[j]? = some a) :
+    a ∉ l.take j := by
+  intro hm
+  obtain ⟨i, hi⟩ := List.getElem?_of_mem hm
+  have hlt : i < j := by
+    have := (List.getElem?_eq_some_iff.1 hi).1
+    simp only [List.length_take] at this
+    omega
+  rw [List.getElem?_take_of_lt hlt] at hi
+  have h1 := SaModel.Props.C11Front.indexOfName_of_get _ hnd a i hi
+  have h2 := SaModel.Props.C11Front.indexOfName_of_get _ hnd a j h
+  rw [h1] at h2; cases h2; omega
 
 /-- every call that is a plain scalar call on every builder -/
 theorem scalar_bl {ext : Ext} [ExtPlain ext] {x : SVal} {b : B} {path : String} {dt n md} (hg : Good b dt n md)
@@ -119,34 +80,24 @@ theorem pushByteElems_bl (ext : Ext) [ExtPlain ext] (large : Bool) {cpath : Stri
     have e := pushScalar_takeRest ext el _ el' ((Build.ctx_ok _ _ _).1 h')
     exact pushByteElems_bl ext large hc rest el' _ (by rw [← path_takeRest el', e, path_takeRest, hp])
 
-theorem pushCountElems_not_plain (ext : Ext) : ∀ (xs : SVals) (el : B) (c : Nat) (msg : String),
-    pushCountElems ext el c xs ≠ .error (.err msg)
-  | .nil, el, c, msg => by simp [pushCountElems]
-  | .cons x rest, el, c, msg => by
-    intro h
-    simp only [pushCountElems] at h
-    rcases bind_err_plain h with h | ⟨el', _, h⟩
-    · exact push_never_plain ext x el msg h
-    · exact pushCountElems_not_plain ext rest el' _ msg h
-
 set_option linter.unusedSectionVars false
 variable (ext : Ext) [ExtPlain ext]
 
 mutual
-theorem push_bl : ∀ (x : SVal), frag x = true → noRaw x = true → ∀ (b : B) (path : String) (dt : DataType) (n : Bool)
+theorem push_bl : ∀ (x : SVal), noRaw x = true → ∀ (b : B) (path : String) (dt : DataType) (n : Bool)
     (md : Metadata), Good b dt n md → At path dt n md b → vsize ext x ≤ room b →
     Bl (blameDT ext path dt n md x) (push ext b x)
-  | .some v, hf, hraw => by
+  | .some v, hraw => by
     intro b path dt n md hg ha hcap
     simp only [vsize] at hcap
     rw [push, blameDT]
-    exact push_bl v (by simpa [frag] using hf) (by simpa [noRaw] using hraw) b path dt n md hg ha (by omega)
-  | .newtypeStruct _ v, hf, hraw => by
+    exact push_bl v (by simpa [noRaw] using hraw) b path dt n md hg ha (by omega)
+  | .newtypeStruct _ v, hraw => by
     intro b path dt n md hg ha hcap
     simp only [vsize] at hcap
     rw [push, blameDT]
-    exact push_bl v (by simpa [frag] using hf) (by simpa [noRaw] using hraw) b path dt n md hg ha (by omega)
-  | .none, _, hraw => by
+    exact push_bl v (by simpa [noRaw] using hraw) b path dt n md hg ha (by omega)
+  | .none, hraw => by
     intro b path dt n md hg ha hcap
     by_cases hi : (interpDT ext dt n md .none).isOk = true
     · exact bl_of_interp_ok hg hraw hcap hi
@@ -154,7 +105,7 @@ theorem push_bl : ∀ (x : SVal), frag x = true → noRaw x = true → ∀ (b : 
       have : blameDT ext path dt n md .none = [path] := by simp [blameDT, hi]
       rw [this]
       exact pushNone_bl hg ha
-  | .unit, _, hraw => by
+  | .unit, hraw => by
     intro b path dt n md hg ha hcap
     by_cases hi : (interpDT ext dt n md .unit).isOk = true
     · exact bl_of_interp_ok hg hraw hcap hi
@@ -164,25 +115,25 @@ theorem push_bl : ∀ (x : SVal), frag x = true → noRaw x = true → ∀ (b : 
       split
       · exact Bl.ctx_self _ (by rw [ha.path]; exact List.mem_singleton.2 rfl) (NoCtx.bl _)
       · exact pushNone_bl hg ha
-  | .bool v, _, hraw => by
+  | .bool v, hraw => by
     intro b path dt n md hg ha hcap
     exact scalar_bl hg ha hraw hcap (by simp [blameDT]) (by rw [push])
-  | .int t v, _, hraw => by
+  | .int t v, hraw => by
     intro b path dt n md hg ha hcap
     exact scalar_bl hg ha hraw hcap (by simp [blameDT]) (by rw [push])
-  | .f32 v, _, hraw => by
+  | .f32 v, hraw => by
     intro b path dt n md hg ha hcap
     exact scalar_bl hg ha hraw hcap (by simp [blameDT]) (by rw [push])
-  | .f64 v, _, hraw => by
+  | .f64 v, hraw => by
     intro b path dt n md hg ha hcap
     exact scalar_bl hg ha hraw hcap (by simp [blameDT]) (by rw [push])
-  | .char v, _, hraw => by
+  | .char v, hraw => by
     intro b path dt n md hg ha hcap
     exact scalar_bl hg ha hraw hcap (by simp [blameDT]) (by rw [push])
-  | .str v, _, hraw => by
+  | .str v, hraw => by
     intro b path dt n md hg ha hcap
     exact scalar_bl hg ha hraw hcap (by simp [blameDT]) (by rw [push])
-  | .unitStruct v, _, hraw => by
+  | .unitStruct v, hraw => by
     intro b path dt n md hg ha hcap
     by_cases hi : (interpDT ext dt n md (.unitStruct v)).isOk = true
     · exact bl_of_interp_ok hg hraw hcap hi
@@ -192,7 +143,7 @@ theorem push_bl : ∀ (x : SVal), frag x = true → noRaw x = true → ∀ (b : 
       split
       · exact Bl.ctx_self _ (by rw [ha.path]; exact List.mem_singleton.2 rfl) (NoCtx.bl _)
       · exact pushNone_bl hg ha
-  | .bytes bs, _, hraw => by
+  | .bytes bs, hraw => by
     intro b path dt n md hg ha hcap
     by_cases hi : (interpDT ext dt n md (.bytes bs)).isOk = true
     · exact bl_of_interp_ok hg hraw hcap hi
@@ -216,101 +167,51 @@ theorem push_bl : ∀ (x : SVal), frag x = true → noRaw x = true → ∀ (b : 
         exact Bl.bind (NoCtx.bl _) fun _ _ => Bl.bind (NoCtx.bl _) fun _ _ =>
           Bl.bind (pushByteElems_bl ext large hc bs el _ hael.path) fun _ _ => Bl.of_ok _
       | _ => exact NoCtx.bl _
-  | .seq xs, hf, hraw => by
+  | .seq xs, hraw => by
     intro b path dt n md hg ha hcap
-    have hf' : frags xs = true := by simpa [frag] using hf
     have hraw' : noRaws xs = true := by simpa [noRaw] using hraw
     by_cases hi : (interpDT ext dt n md (.seq xs)).isOk = true
     · exact bl_of_interp_ok hg hraw hcap hi
-    · have hi' := not_isOk_false hi
-      simp only [vsize] at hcap
-      rw [push]
-      cases b with
-      | list p large fm v offs el =>
-        have hp : p = path := ha.path
-        have hsh := hg.shape
-        simp only [Shape] at hsh
-        obtain ⟨_, cname, cdt, cn, cmd, hdt, hsel⟩ := hsh
-        have hgel := Good.list_el hg hdt hsel
-        have hael : At (path ++ "." ++ childName cname) cdt cn cmd el := by
-          cases large
-          · simp only [Bool.false_eq_true, if_false] at hdt; subst hdt; exact At.list (.inl ha)
-          · simp only [if_true] at hdt; subst hdt; exact At.list (.inr ha)
-        have hS : blameDT ext path dt n md (.seq xs) =
-            (if (blameAll ext (path ++ "." ++ childName cname) cdt cn cmd xs).isEmpty then [path]
-             else blameAll ext (path ++ "." ++ childName cname) cdt cn cmd xs) := by
-          cases large
-          · simp only [Bool.false_eq_true, if_false] at hdt; subst hdt; simp [blameDT, hi']
-          · simp only [if_true] at hdt; subst hdt; simp [blameDT, hi']
-        have hroom : vsizes ext xs ≤ room el := by simp only [room] at hcap; omega
-        rw [hS, ← hp]
-        exact list_row_bl hg.wf hcap fun offs' l hl h0 hle =>
-          ⟨hp ▸ pushElems_bl xs hf' hraw' large el offs' _ cdt cn cmd hgel hael hroom,
-            fun msg => pushElems_not_plain ext large xs el offs' l msg hl h0 hle⟩
-      | fixedSizeList p fm m len v cur el =>
-        have hp : p = path := ha.path
-        have hsh := hg.shape
-        simp only [Shape] at hsh
-        obtain ⟨_, cname, cdt, cn, cmd, hdt, hsel⟩ := hsh
-        subst hdt
-        have hw := hg.wf
-        simp only [WFB] at hw
-        have hsafe := hg.safe
-        simp only [Safe] at hsafe
-        have ht := hg.tot
-        simp only [total, totalF, Bool.and_eq_true] at ht
-        have hgel : Good el cdt cn cmd := ⟨hw.2.2, hsafe.1, hsel, ht.1⟩
-        have hael := ha.fixedSizeList
-        have hS : blameDT ext path (.fixedSizeList (.mk cname cdt cn cmd) (m : Int)) n md (.seq xs) =
-            (if ((xs.length : Int) != (m : Int)) || (blameAll ext (path ++ "." ++ childName cname) cdt cn cmd xs).isEmpty
-              then [path] else []) ++ blameAll ext (path ++ "." ++ childName cname) cdt cn cmd xs := by
-          simp [blameDT, hi']
-        have hroom : vsizes ext xs ≤ room el := by simp only [room] at hcap; omega
-        rw [hS, ← hp]
-        exact fsl_row_bl (fun r hr => by simpa using pushCountElems_count ext xs el 0 r hr)
-          (hp ▸ pushCountElems_bl xs hf' hraw' el 0 _ cdt cn cmd hgel hael hroom)
-          (fun msg => pushCountElems_not_plain ext xs el 0 msg)
-      | struct p len v fs cached next seen =>
-        refine Bl.ctx_self _ (by rw [ha.path]; exact seq_self_mem hg.shape rfl hi') ?_
-        unfold seqLikeWith; exact NoCtx.bl _
-      | null _ _ | unknownVariant _ | leaf _ _ _ _ | bytes _ _ _ _ _ | bytesView _ _ _ _ _ | fixedSizeBinary _ _ _ _ _ _
-      | map _ _ _ _ _ _ | dictionary _ _ _ _ | union _ _ _ _ _ =>
-        refine Bl.ctx_self _ (by rw [ha.path]; exact seq_self_mem hg.shape rfl hi') ?_
-        unfold seqLikeWith; exact NoCtx.bl _
-  | .record nm fields, hf, hraw => by
+    · simp only [vsize] at hcap
+      rw [push, blameDT_seq_eq (not_isOk_false hi)]
+      exact seqLike_bl (pushElems_bl xs hraw') (pushCountElems_bl xs hraw') (pushTupleElems_bl xs hraw') .seq hg ha hcap
+  | .tuple xs, hraw => by
     intro b path dt n md hg ha hcap
-    have hf' : fragf fields = true := by simpa [frag] using hf
+    have hraw' : noRaws xs = true := by simpa [noRaw] using hraw
+    by_cases hi : (interpDT ext dt n md (.tuple xs)).isOk = true
+    · exact bl_of_interp_ok hg hraw hcap hi
+    · simp only [vsize] at hcap
+      rw [push, blameDT_tuple_eq (not_isOk_false hi)]
+      exact seqLike_bl (pushElems_bl xs hraw') (pushCountElems_bl xs hraw') (pushTupleElems_bl xs hraw') .tuple hg ha hcap
+  | .tupleStruct nm xs, hraw => by
+    intro b path dt n md hg ha hcap
+    have hraw' : noRaws xs = true := by simpa [noRaw] using hraw
+    by_cases hi : (interpDT ext dt n md (.tupleStruct nm xs)).isOk = true
+    · exact bl_of_interp_ok hg hraw hcap hi
+    · have hi' : (interpDT ext dt n md (.tuple xs)).isOk = false := by
+        have := not_isOk_false hi
+        simpa only [interpDT] using this
+      simp only [vsize] at hcap
+      rw [push, blameDT_tupleStruct_eq hi']
+      exact seqLike_bl (pushElems_bl xs hraw') (pushCountElems_bl xs hraw') (pushTupleElems_bl xs hraw') .tupleStruct hg ha hcap
+  | .record nm fields, hraw => by
+    intro b path dt n md hg ha hcap
     have hraw' : noRawf fields = true := by simpa [noRaw] using hraw
     by_cases hi : (interpDT ext dt n md (.record nm fields)).isOk = true
     · exact bl_of_interp_ok hg hraw hcap hi
-    · have hi' := not_isOk_false hi
-      simp only [vsize] at hcap
-      rw [push]
-      cases b with
-      | struct p len v fs cached next seen =>
-        have hsh := hg.shape
-        simp only [Shape] at hsh
-        obtain ⟨_, sfs, rfl, hsl⟩ := hsh
-        have hi'' : (interpDT ext (.struct sfs) n md (.record "" fields)).isOk = false := by
-          simpa only [interpDT] using hi'
-        have hS : blameDT ext path (.struct sfs) n md (.record nm fields) =
-            structS path sfs.toList (fieldKeys fields) false (blameFields ext path sfs.toList fields) := by
-          simp [blameDT, hi'', structS]
-        rw [hS]
-        unfold recordWith
-        simp only [room] at hcap
-        refine struct_row_bl hg ha fun k s hm hs hfs hk => ?_
-        exact pushFields_bl fields hf' hraw' k _ path sfs s [] hm hs (by rw [hfs]; omega)
-          (fun hd => mem_structS_own (by simp only [structOwnFails, Bool.or_eq_true]; left; simpa [knownKeys] using hd))
-          mem_structS_inner (by simpa using hk)
-      | unknownVariant _ =>
-        refine Bl.ctx_self _ (by rw [ha.path]; exact record_self_mem hg.shape rfl hi') ?_
-        unfold recordWith; exact NoCtx.bl _
-      | null _ _ | leaf _ _ _ _ | bytes _ _ _ _ _ | bytesView _ _ _ _ _ | fixedSizeBinary _ _ _ _ _ _
-      | list _ _ _ _ _ _ | fixedSizeList _ _ _ _ _ _ _ | map _ _ _ _ _ _ | dictionary _ _ _ _ | union _ _ _ _ _ =>
-        refine Bl.ctx_self _ (by rw [ha.path]; exact record_self_mem hg.shape rfl hi') ?_
-        unfold recordWith; exact NoCtx.bl _
-  | .unitVariant a i vn, _, hraw => by
+    · simp only [vsize] at hcap
+      rw [push, blameDT_record_eq (not_isOk_false hi)]
+      exact recordLike_bl (pushFields_bl fields hraw') hg ha hcap
+  | .map es, hraw => by
+    intro b path dt n md hg ha hcap
+    have hraw' : noRawe es = true := by simpa [noRaw] using hraw
+    by_cases hi : (interpDT ext dt n md (.map es)).isOk = true
+    · exact bl_of_interp_ok hg hraw hcap hi
+    · simp only [vsize] at hcap
+      rw [push_map_eq, blameDT_map_eq (not_isOk_false hi)]
+      exact mapLike_bl (pushStructEntries_bl es hraw') (pushMapEntries_bl es hraw') hg ha hcap
+  | .mapRaw _, hraw => by simp [noRaw] at hraw
+  | .unitVariant a i vn, hraw => by
     intro b path dt n md hg ha hcap
     by_cases hi : (interpDT ext dt n md (.unitVariant a i vn)).isOk = true
     · exact bl_of_interp_ok hg hraw hcap hi
@@ -337,9 +238,8 @@ theorem push_bl : ∀ (x : SVal), frag x = true → noRaw x = true → ∀ (b : 
       | null _ _ | unknownVariant _ | leaf _ _ _ _ | bytes _ _ _ _ _ | bytesView _ _ _ _ _ | fixedSizeBinary _ _ _ _ _ _
       | list _ _ _ _ _ _ | fixedSizeList _ _ _ _ _ _ _ | map _ _ _ _ _ _ | struct _ _ _ _ _ _ _ | dictionary _ _ _ _ =>
         exact Bl.ctx_self _ (by rw [ha.path]; exact unitVariant_self_mem hg.shape rfl hi') (NoCtx.bl _)
-  | .newtypeVariant a i vn v, hf, hraw => by
+  | .newtypeVariant a i vn v, hraw => by
     intro b path dt n md hg ha hcap
-    have hf' : frag v = true := by simpa [frag] using hf
     have hraw' : noRaw v = true := by simpa [noRaw] using hraw
     by_cases hi : (interpDT ext dt n md (.newtypeVariant a i vn v)).isOk = true
     · exact bl_of_interp_ok hg hraw hcap hi
@@ -359,7 +259,7 @@ theorem push_bl : ∀ (x : SVal), frag x = true → noRaw x = true → ∀ (b : 
              else blameDT ext (path ++ "." ++ childName nm) cdt cn cmd v) := by
           simp [blameDT, hi', hufs]
         rw [hS]
-        exact Bl.mono mem_ite_inner (push_bl v hf' hraw' c _ cdt cn cmd hgc hac (by omega))
+        exact Bl.mono mem_ite_inner (push_bl v hraw' c _ cdt cn cmd hgc hac (by omega))
       | bytes _ ty _ _ _ =>
         exact Bl.ctx_self _ (by rw [ha.path]; exact newtypeVariant_self_mem hg.shape rfl hi') (NoCtx.bl _)
       | bytesView _ ty _ _ _ =>
@@ -367,53 +267,169 @@ theorem push_bl : ∀ (x : SVal), frag x = true → noRaw x = true → ∀ (b : 
       | null _ _ | unknownVariant _ | leaf _ _ _ _ | fixedSizeBinary _ _ _ _ _ _
       | list _ _ _ _ _ _ | fixedSizeList _ _ _ _ _ _ _ | map _ _ _ _ _ _ | struct _ _ _ _ _ _ _ | dictionary _ _ _ _ =>
         exact Bl.ctx_self _ (by rw [ha.path]; exact newtypeVariant_self_mem hg.shape rfl hi') (NoCtx.bl _)
-  | .tuple _, hf, _ | .tupleStruct _ _, hf, _ | .map _, hf, _ | .mapRaw _, hf, _
-  | .tupleVariant _ _ _ _, hf, _ | .structVariant _ _ _ _, hf, _ => by
-    simp [frag] at hf
-theorem pushElems_bl : ∀ (xs : SVals), frags xs = true → noRaws xs = true → ∀ (large : Bool) (el : B) (offs : List Int)
-    (cpath : String) (cdt : DataType) (cn : Bool) (cmd : Metadata), Good el cdt cn cmd → At cpath cdt cn cmd el →
-    vsizes ext xs ≤ room el → Bl (blameAll ext cpath cdt cn cmd xs) (pushElems ext large el offs xs)
-  | .nil, _, _ => by intro large el offs cpath cdt cn cmd _ _ _; rw [pushElems]; exact Bl.of_ok _
-  | .cons x rest, hf, hraw => by
+  | .tupleVariant a i vn xs, hraw => by
+    intro b path dt n md hg ha hcap
+    have hraw' : noRaws xs = true := by simpa [noRaw] using hraw
+    by_cases hi : (interpDT ext dt n md (.tupleVariant a i vn xs)).isOk = true
+    · exact bl_of_interp_ok hg hraw hcap hi
+    · have hi' := not_isOk_false hi
+      simp only [vsize] at hcap
+      unfold push
+      cases b with
+      | union p fs types offs cur =>
+        have hsh := hg.shape
+        simp only [Shape] at hsh
+        obtain ⟨ufs, mode, rfl, _⟩ := hsh
+        simp only [room] at hcap
+        refine union_row_bl (i := i) (pc := fun c => ctx c.ann (seqLikeWith
+            (fun large el offs => pushElems ext large el offs xs) (fun el c => pushCountElems ext el c xs)
+            (fun s => pushTupleElems ext s xs) (u8All xs) c .tupleStruct)) hg ha (fun hn => by simp [blameDT, hi', hn])
+          (fun tid nm cdt cn cmd c hufs hgc hac hrc => ?_)
+          (fun c msg => by rw [ann_eq_posAnn]; exact ctx_never_plain _ _ _)
+        exact Bl.mono (seqS_sub_tupleVariant hufs hi')
+          (seqLike_bl (pushElems_bl xs hraw') (pushCountElems_bl xs hraw') (pushTupleElems_bl xs hraw') .tupleStruct hgc hac
+            (by omega))
+      | bytes _ ty _ _ _ =>
+        exact Bl.ctx_self _ (by rw [ha.path]; exact tupleVariant_self_mem hg.shape rfl hi') (NoCtx.bl _)
+      | bytesView _ ty _ _ _ =>
+        exact Bl.ctx_self _ (by rw [ha.path]; exact tupleVariant_self_mem hg.shape rfl hi') (NoCtx.bl _)
+      | null _ _ | unknownVariant _ | leaf _ _ _ _ | fixedSizeBinary _ _ _ _ _ _
+      | list _ _ _ _ _ _ | fixedSizeList _ _ _ _ _ _ _ | map _ _ _ _ _ _ | struct _ _ _ _ _ _ _ | dictionary _ _ _ _ =>
+        exact Bl.ctx_self _ (by rw [ha.path]; exact tupleVariant_self_mem hg.shape rfl hi') (NoCtx.bl _)
+  | .structVariant a i vn fields, hraw => by
+    intro b path dt n md hg ha hcap
+    have hraw' : noRawf fields = true := by simpa [noRaw] using hraw
+    by_cases hi : (interpDT ext dt n md (.structVariant a i vn fields)).isOk = true
+    · exact bl_of_interp_ok hg hraw hcap hi
+    · have hi' := not_isOk_false hi
+      simp only [vsize] at hcap
+      unfold push
+      cases b with
+      | union p fs types offs cur =>
+        have hsh := hg.shape
+        simp only [Shape] at hsh
+        obtain ⟨ufs, mode, rfl, _⟩ := hsh
+        simp only [room] at hcap
+        refine union_row_bl (i := i) (pc := fun c => ctx c.ann (recordWith (fun s => pushFields ext s fields) c)) hg ha
+          (fun hn => by simp [blameDT, hi', hn]) (fun tid nm cdt cn cmd c hufs hgc hac hrc => ?_)
+          (fun c msg => by rw [ann_eq_posAnn]; exact ctx_never_plain _ _ _)
+        exact Bl.mono (recS_sub_structVariant hufs hi') (recordLike_bl (pushFields_bl fields hraw') hgc hac (by omega))
+      | bytes _ ty _ _ _ =>
+        exact Bl.ctx_self _ (by rw [ha.path]; exact structVariant_self_mem hg.shape rfl hi') (NoCtx.bl _)
+      | bytesView _ ty _ _ _ =>
+        exact Bl.ctx_self _ (by rw [ha.path]; exact structVariant_self_mem hg.shape rfl hi') (NoCtx.bl _)
+      | null _ _ | unknownVariant _ | leaf _ _ _ _ | fixedSizeBinary _ _ _ _ _ _
+      | list _ _ _ _ _ _ | fixedSizeList _ _ _ _ _ _ _ | map _ _ _ _ _ _ | struct _ _ _ _ _ _ _ | dictionary _ _ _ _ =>
+        exact Bl.ctx_self _ (by rw [ha.path]; exact structVariant_self_mem hg.shape rfl hi') (NoCtx.bl _)
+theorem pushElems_bl : ∀ (xs : SVals), noRaws xs = true → ElemsBl ext xs
+  | .nil, _ => by intro large el offs cpath cdt cn cmd _ _ _; rw [pushElems]; exact Bl.of_ok _
+  | .cons x rest, hraw => by
     intro large el offs cpath cdt cn cmd hg ha hcap
-    have hf' : frag x = true ∧ frags rest = true := by simpa [frags] using hf
     have hraw' : noRaw x = true ∧ noRaws rest = true := by simpa [noRaws] using hraw
     simp only [vsizes] at hcap
     rw [pushElems, blameAll]
     refine Bl.bind (NoCtx.bl _) fun offs' _ => Bl.bind (Bl.mono (fun q hq => List.mem_append_left _ hq)
-      (push_bl x hf'.1 hraw'.1 el cpath cdt cn cmd hg ha (by omega))) fun el' h' => ?_
+      (push_bl x hraw'.1 el cpath cdt cn cmd hg ha (by omega))) fun el' h' => ?_
     obtain ⟨hg', hr⟩ := push_step hg hraw'.1 (by omega) h'
     exact Bl.mono (fun q hq => List.mem_append_right _ hq)
-      (pushElems_bl rest hf'.2 hraw'.2 large el' offs' cpath cdt cn cmd hg' (ha.push h') (by omega))
-theorem pushCountElems_bl : ∀ (xs : SVals), frags xs = true → noRaws xs = true → ∀ (el : B) (c : Nat)
-    (cpath : String) (cdt : DataType) (cn : Bool) (cmd : Metadata), Good el cdt cn cmd → At cpath cdt cn cmd el →
-    vsizes ext xs ≤ room el → Bl (blameAll ext cpath cdt cn cmd xs) (pushCountElems ext el c xs)
-  | .nil, _, _ => by intro el c cpath cdt cn cmd _ _ _; rw [pushCountElems]; exact Bl.of_ok _
-  | .cons x rest, hf, hraw => by
+      (pushElems_bl rest hraw'.2 large el' offs' cpath cdt cn cmd hg' (ha.push h') (by omega))
+theorem pushCountElems_bl : ∀ (xs : SVals), noRaws xs = true → CountBl ext xs
+  | .nil, _ => by intro el c cpath cdt cn cmd _ _ _; rw [pushCountElems]; exact Bl.of_ok _
+  | .cons x rest, hraw => by
     intro el c cpath cdt cn cmd hg ha hcap
-    have hf' : frag x = true ∧ frags rest = true := by simpa [frags] using hf
     have hraw' : noRaw x = true ∧ noRaws rest = true := by simpa [noRaws] using hraw
     simp only [vsizes] at hcap
     rw [pushCountElems, blameAll]
     refine Bl.bind (Bl.mono (fun q hq => List.mem_append_left _ hq)
-      (push_bl x hf'.1 hraw'.1 el cpath cdt cn cmd hg ha (by omega))) fun el' h' => ?_
+      (push_bl x hraw'.1 el cpath cdt cn cmd hg ha (by omega))) fun el' h' => ?_
     obtain ⟨hg', hr⟩ := push_step hg hraw'.1 (by omega) h'
     exact Bl.mono (fun q hq => List.mem_append_right _ hq)
-      (pushCountElems_bl rest hf'.2 hraw'.2 el' (c + 1) cpath cdt cn cmd hg' (ha.push h') (by omega))
-theorem pushFields_bl : ∀ (fields : SFields), fragf fields = true → noRawf fields = true →
-    ∀ {β : Type} (k : SS → R β) (S : List String) (path : String) (sfs : Fields) (s : SS) (done : List String),
-    MidS path sfs s → SeenIs s done → vsizef ext fields ≤ roomL s.fields →
-    (dupKeys (done ++ knownKeys sfs.toList (fieldKeys fields)) = true → path ∈ S) →
-    (∀ q ∈ blameFields ext path sfs.toList fields, q ∈ S) →
-    (∀ s', MidS path sfs s' → SeenIs s' (done ++ knownKeys sfs.toList (fieldKeys fields)) → Blo S path (k s')) →
-    Blo S path (pushFields ext s fields >>= k)
-  | .nil, _, _ => by
+      (pushCountElems_bl rest hraw'.2 el' (c + 1) cpath cdt cn cmd hg' (ha.push h') (by omega))
+theorem pushTupleElems_bl : ∀ (xs : SVals), noRaws xs = true → TupleBl ext xs
+  | .nil, _ => by
+    intro k S path sfs s j hm hn hs _ _ hk
+    rw [pushTupleElems]
+    exact hk s hm (by simpa [SVals.length] using hs)
+  | .cons x rest, hraw => by
+    intro k S path sfs s j hm hn hs hcap hin hk
+    have hraw' : noRaw x = true ∧ noRaws rest = true := by simpa [noRaws] using hraw
+    simp only [vsizes] at hcap
+    have hlen : s.fields.length = sfs.toList.length := by
+      rw [← BL.names_length, hm.names, List.length_map]
+    have hk' : ∀ s', MidS path sfs s' → SeenIs s' ((sfs.toList.map Field.name).take (j + 1 + rest.length)) →
+        Blo S path (k s') := by
+      intro s' hm' hs'
+      refine hk s' hm' ?_
+      have : j + (SVals.cons x rest).length = j + 1 + rest.length := by simp only [SVals.length]; omega
+      rw [this]; exact hs'
+    rw [pushTupleElems]
+    split
+    · rename_i hlt
+      have hj : s.next = j := by
+        rcases hn with h | ⟨h, _⟩
+        · exact h
+        · omega
+      rw [hj] at hlt ⊢
+      have hjl : j < sfs.toList.length := by omega
+      have hfj : sfs.toList[j]? = some sfs.toList[j] := List.getElem?_eq_getElem hjl
+      generalize sfs.toList[j] = f at hfj
+      have hname : s.fields.names[j]? = some f.name := by rw [hm.names]; simp [List.getElem?_map, hfj]
+      have hndf : (sfs.toList.map Field.name).Nodup := by rw [← hm.names]; exact hm.nodup
+      have hdrop : sfs.toList.drop j = f :: sfs.toList.drop (j + 1) := by
+        rw [List.drop_eq_getElem_cons hjl]
+        congr 1
+        have := List.getElem?_eq_getElem hjl
+        rw [hfj] at this
+        exact (Option.some.inj this).symm
+      have htake : (sfs.toList.map Field.name).take (j + 1) = (sfs.toList.map Field.name).take j ++ [f.name] := by
+        rw [List.take_add_one]
+        simp [List.getElem?_map, hfj]
+      rw [bind_assoc]
+      refine Blo.bind (element_blo hm hs hname (fun hd => ?_) ?_) fun s1 h1 => ?_
+      · exfalso
+        rw [← hm.names] at hd hndf
+        exact nodup_not_mem_take hndf hname hd
+      · intro c m hget
+        obtain ⟨f', hfj', _, _, hgc, hac⟩ := hm.kids.get hget
+        rw [hfj] at hfj'; cases hfj'
+        have hrc : roomL s.fields ≤ room c := roomL_get _ _ _ _ hget
+        refine Bl.mono (fun q hq => hin q ?_) (push_bl x hraw'.1 c _ _ _ _ hgc hac (by omega))
+        obtain ⟨fname, fdt, fn, fmd⟩ := f
+        rw [hdrop]
+        simp only [blameNth, List.mem_append]
+        exact .inl hq
+      · obtain ⟨c, m, c', _, hget, hpc, rfl⟩ := element_ok_inv h1
+        obtain ⟨f', hfj', _, _, hgc, hac⟩ := hm.kids.get hget
+        rw [hfj] at hfj'; cases hfj'
+        have hrc : roomL s.fields ≤ room c := roomL_get _ _ _ _ hget
+        obtain ⟨hgc', hroom⟩ := push_step hgc hraw'.1 (by omega) hpc
+        have hroomL : roomL s.fields ≤ roomL (s.fields.set j c') + vsize ext x := roomL_set _ _ _ _ _ _ hget hroom
+        refine pushTupleElems_bl rest hraw'.2 k S path sfs _ (j + 1) (hm.step hget hfj hgc' (hac.push hpc))
+          (.inl rfl) ?_ (show vsizes ext rest ≤ roomL (s.fields.set j c') by omega) ?_ hk'
+        · rw [htake]; exact SeenIs.step hm hs hname
+        · intro q hq; apply hin; rw [hdrop]
+          obtain ⟨fname, fdt, fn, fmd⟩ := f
+          simp only [blameNth, List.mem_append]; exact .inr hq
+    · rename_i hge
+      have hL : s.fields.length ≤ s.next ∧ s.fields.length ≤ j := by
+        rcases hn with h | ⟨h1, h2⟩
+        · omega
+        · exact ⟨h1, h2⟩
+      have htk : ∀ m, j ≤ m → (sfs.toList.map Field.name).take m = (sfs.toList.map Field.name).take j := by
+        intro m hm'
+        rw [List.take_of_length_le (by rw [List.length_map]; omega), List.take_of_length_le (by rw [List.length_map]; omega)]
+      refine pushTupleElems_bl rest hraw'.2 k S path sfs s (j + 1) hm (.inr ⟨hL.1, by omega⟩) ?_ (by omega) ?_ hk'
+      · rw [htk (j + 1) (by omega)]; exact hs
+      · intro q hq
+        rw [List.drop_of_length_le (by omega)] at hq
+        simp [blameNth] at hq
+theorem pushFields_bl : ∀ (fields : SFields), noRawf fields = true → FieldsBl ext fields
+  | .nil, _ => by
     intro k S path sfs s done hm hs _ _ _ hk
     rw [pushFields]
     exact hk s hm (by simpa [fieldKeys, knownKeys] using hs)
-  | .cons key al x rest, hf, hraw => by
+  | .cons key al x rest, hraw => by
     intro k S path sfs s done hm hs hcap hdup hin hk
-    have hf' : frag x = true ∧ fragf rest = true := by simpa [fragf] using hf
     have hraw' : noRaw x = true ∧ noRawf rest = true := by simpa [noRawf] using hraw
     simp only [vsizef] at hcap
     have hls := SaModel.Props.C11Front.lookup_sound s.fields.names s.cached s.next (key, al) hm.nodup hm.cache
@@ -433,7 +449,7 @@ theorem pushFields_bl : ∀ (fields : SFields), fragf fields = true → noRawf f
         simp [blameFields, find_none_of hunk]
       rw [hk0] at hdup hk
       rw [hb0] at hin
-      exact pushFields_bl rest hf'.2 hraw'.2 k S path sfs _ done (hm.cached cached' hls.2) (hs.cached _) (by simp only; omega)
+      exact pushFields_bl rest hraw'.2 k S path sfs _ done (hm.cached cached' hls.2) (hs.cached _) (by simp only; omega)
         hdup hin hk
     · rename_i idx cached' heq
       rw [heq] at hls
@@ -455,7 +471,7 @@ theorem pushFields_bl : ∀ (fields : SFields), fragf fields = true → noRawf f
           exact hname'
         have hfind := find_of_get hndf hfj hfk
         have hrc : roomL s.fields ≤ room c := roomL_get _ _ _ _ hget
-        refine Bl.mono (fun q hq => hin q ?_) (push_bl x hf'.1 hraw'.1 c _ _ _ _ hgc hac (by omega))
+        refine Bl.mono (fun q hq => hin q ?_) (push_bl x hraw'.1 c _ _ _ _ hgc hac (by omega))
         obtain ⟨fname, fdt, fn, fmd⟩ := f
         simp only [blameFields, hfind, List.mem_append]
         exact .inl hq
@@ -465,11 +481,92 @@ theorem pushFields_bl : ∀ (fields : SFields), fragf fields = true → noRawf f
         have hrc : roomL s.fields ≤ room c := roomL_get _ _ _ _ hget
         obtain ⟨hgc', hroom⟩ := push_step hgc hraw'.1 (by omega) hpc
         have hroomL : roomL s.fields ≤ roomL (s.fields.set idx c') + vsize ext x := roomL_set _ _ _ _ _ _ hget hroom
-        refine pushFields_bl rest hf'.2 hraw'.2 k S path sfs _ (done ++ [key]) (hm1.step hget hfj hgc' (hac.push hpc))
+        refine pushFields_bl rest hraw'.2 k S path sfs _ (done ++ [key]) (hm1.step hget hfj hgc' (hac.push hpc))
           (SeenIs.step hm1 hs1 hname) (show vsizef ext rest ≤ roomL (s.fields.set idx c') by omega) ?_ ?_ ?_
         · intro hd; apply hdup; simpa [List.append_assoc] using hd
         · intro q hq; apply hin; simp only [blameFields, List.mem_append]; exact .inr hq
         · intro s' hm' hs'; apply hk s' hm'; simpa [List.append_assoc] using hs'
+theorem pushStructEntries_bl : ∀ (es : SEntries), noRawe es = true → EntriesBl ext es
+  | .nil, _ => by
+    intro k S path sfs s done hm hs _ _ _ _ hk
+    rw [pushStructEntries]
+    exact hk s hm (by simpa [entryKeys, knownKeys] using hs)
+  | .cons kx x rest, hraw => by
+    intro k S path sfs s done hm hs hcap hdup hkeys hin hk
+    have hraw' : (noRaw kx = true ∧ noRaw x = true) ∧ noRawe rest = true := by simpa [noRawe] using hraw
+    simp only [vsizee] at hcap
+    rw [pushStructEntries, bind_assoc]
+    refine Blo.bind ⟨NoCtx.bl _, fun msg h => hkeys (by simp [keysAreStrings, h, bind, Except.bind, R.isOk])⟩
+      fun key hkey => ?_
+    have hkeys' : (keysAreStrings rest).isOk = false → path ∈ S := by
+      intro h; apply hkeys
+      simpa [keysAreStrings, hkey, bind, Except.bind] using h
+    have hek : entryKeys (.cons kx x rest) = key :: entryKeys rest := by simp [entryKeys, hkey]
+    split
+    · rename_i hnone
+      have hunk : ∀ (j : Nat), (sfs.toList.map Field.name)[j]? ≠ some key := by
+        intro j hj
+        rw [← hm.names] at hj
+        have := SaModel.Props.C11Front.indexOfName_of_get _ hm.nodup key j hj
+        rw [hnone] at this; cases this
+      have hk0 : knownKeys sfs.toList (entryKeys (.cons kx x rest)) = knownKeys sfs.toList (entryKeys rest) := by
+        rw [hek]; simp [knownKeys, any_unknown_of hunk]
+      have hb0 : blameEntriesStruct ext path sfs.toList (.cons kx x rest) = blameEntriesStruct ext path sfs.toList rest := by
+        simp [blameEntriesStruct, hkey, Except.toOption, find_none_of hunk]
+      rw [hk0] at hdup hk
+      rw [hb0] at hin
+      exact pushStructEntries_bl rest hraw'.2 k S path sfs _ done (hm.next _) (hs.next _) (by simp only; omega)
+        hdup hkeys' hin hk
+    · rename_i idx hidx
+      have hname : s.fields.names[idx]? = some key := SaModel.Props.C11Front.indexOfName_some _ _ _ hidx
+      have hname' : (sfs.toList.map Field.name)[idx]? = some key := by rw [← hm.names]; exact hname
+      have hk1 : knownKeys sfs.toList (entryKeys (.cons kx x rest)) = key :: knownKeys sfs.toList (entryKeys rest) := by
+        rw [hek]; simp [knownKeys, any_known_of_get hname']
+      have hndf : (sfs.toList.map Field.name).Nodup := by rw [← hm.names]; exact hm.nodup
+      rw [hk1] at hdup hk
+      rw [bind_assoc]
+      refine Blo.bind (element_blo hm hs hname (fun hd => hdup (dupKeys_mem hd)) ?_) fun s1 h1 => ?_
+      · intro c m hget
+        obtain ⟨f, hfj, _, _, hgc, hac⟩ := hm.kids.get hget
+        have hfk : f.name = key := by
+          simp only [List.getElem?_map, hfj, Option.map_some, Option.some.injEq] at hname'
+          exact hname'
+        have hfind := find_of_get hndf hfj hfk
+        have hrc : roomL s.fields ≤ room c := roomL_get _ _ _ _ hget
+        have := vsize_pos ext kx
+        refine Bl.mono (fun q hq => hin q ?_) (push_bl x hraw'.1.2 c _ _ _ _ hgc hac (by omega))
+        obtain ⟨fname, fdt, fn, fmd⟩ := f
+        simp only [blameEntriesStruct, hkey, Except.toOption, Option.bind_some, hfind, List.mem_append]
+        exact .inl hq
+      · obtain ⟨c, m, c', _, hget, hpc, rfl⟩ := element_ok_inv h1
+        obtain ⟨f, hfj, _, _, hgc, hac⟩ := hm.kids.get hget
+        have hrc : roomL s.fields ≤ room c := roomL_get _ _ _ _ hget
+        have := vsize_pos ext kx
+        obtain ⟨hgc', hroom⟩ := push_step hgc hraw'.1.2 (by omega) hpc
+        have hroomL : roomL s.fields ≤ roomL (s.fields.set idx c') + vsize ext x := roomL_set _ _ _ _ _ _ hget hroom
+        refine pushStructEntries_bl rest hraw'.2 k S path sfs _ (done ++ [key])
+          ((hm.step (nx := idx + 1) hget hfj hgc' (hac.push hpc)).next _)
+          ((SeenIs.step (nx := idx + 1) hm hs hname).next _)
+          (show vsizee ext rest ≤ roomL (s.fields.set idx c') by omega) ?_ hkeys' ?_ ?_
+        · intro hd; apply hdup; simpa [List.append_assoc] using hd
+        · intro q hq; apply hin; simp only [blameEntriesStruct, List.mem_append]; exact .inr hq
+        · intro s' hm' hs'; apply hk s' hm'; simpa [List.append_assoc] using hs'
+theorem pushMapEntries_bl : ∀ (es : SEntries), noRawe es = true → MapEntriesBl ext es
+  | .nil, _ => by intro offs ks vs kp kdt kn kmd vp vdt vn vmd _ _ _ _ _ _; rw [pushMapEntries]; exact Bl.of_ok _
+  | .cons kx x rest, hraw => by
+    intro offs ks vs kp kdt kn kmd vp vdt vn vmd hgk hak hgv hav hck hcv
+    have hraw' : (noRaw kx = true ∧ noRaw x = true) ∧ noRawe rest = true := by simpa [noRawe] using hraw
+    simp only [vsizee] at hck hcv
+    rw [pushMapEntries, blameEntriesMap]
+    refine Bl.bind (NoCtx.bl _) fun offs' _ => Bl.bind (Bl.mono (fun q hq => List.mem_append_left _ (List.mem_append_left _ hq))
+      (push_bl kx hraw'.1.1 ks kp kdt kn kmd hgk hak (by omega))) fun ks' h1 => Bl.bind
+      (Bl.mono (fun q hq => List.mem_append_left _ (List.mem_append_right _ hq))
+        (push_bl x hraw'.1.2 vs vp vdt vn vmd hgv hav (by omega))) fun vs' h2 => ?_
+    obtain ⟨hgk', _⟩ := push_step hgk hraw'.1.1 (by omega) h1
+    obtain ⟨hgv', _⟩ := push_step hgv hraw'.1.2 (by omega) h2
+    exact Bl.mono (fun q hq => List.mem_append_right _ hq)
+      (pushMapEntries_bl rest hraw'.2 offs' ks' vs' kp kdt kn kmd vp vdt vn vmd hgk' (hak.push h1) hgv' (hav.push h2)
+        (by omega) (by omega))
 end
 
 end SaModel.Props.C18
